@@ -10,7 +10,7 @@ META = {
         "quick": "configuration lattice: 16 flag combinations x (velocity_bins, num_tracks) in {(1,1),(1,2),(2,1),(8,1)}, pitch range (60,62), default note "
                  "values, on a 2-3 note piece (first onset even 0..2, symbolic member of the note values, symbolic velocities, second note "
                  "after a symbolic even gap); shapes under 2 configurations: one note with onset even 0..200 (rests crossing two bar "
-                 "lines), 4 signature plans on bar boundaries, tracks of unequal length, simultaneous notes within and across tracks, "
+                 "lines), 11 signature plans on bar boundaries (incl. 16/8, 2/4->8/4, 3/8, 6/16->12/16), a second piece through the same tokeniser object, tracks of unequal length, simultaneous notes within and across tracks, "
                  "trailing rest with symbolic cap (duration clause)",
         "thorough": "as quick with velocity_bins {1,2,5,8} x tracks {1,2} for all 16 flag combinations, note values [6,12,24] with symbolic pitch, 3 tracks, "
                     "every signature plan (incl. 16/8, 2/4->8/4, 3/8) under 3 configurations for the onset and trailing-rest queries",
@@ -22,10 +22,22 @@ META = {
 }
 
 FLAGS = list(itertools.product([True, False], repeat=4))
-PLANS = {"none": [], "34-38-34": [(0, 3, 4), (72, 3, 8), (108, 3, 4)], "late34": [(96, 3, 4)], "168": [(0, 16, 8)], "24-84": [(0, 2, 4), (48, 8, 4)], "38": [(0, 3, 8)], "34": [(0, 3, 4)], "68-24": [(0, 6, 8), (144, 2, 4)], "34-58": [(0, 3, 4), (72, 5, 8)], "44-34": [(0, 4, 4), (96, 3, 4)]}
+PLANS = {"none": [], "616-1216": [(0, 6, 16), (72, 12, 16)], "34-38-34": [(0, 3, 4), (72, 3, 8), (108, 3, 4)], "late34": [(96, 3, 4)], "168": [(0, 16, 8)], "24-84": [(0, 2, 4), (48, 8, 4)], "38": [(0, 3, 8)], "34": [(0, 3, 4)], "68-24": [(0, 6, 8), (144, 2, 4)], "34-58": [(0, 3, 4), (72, 5, 8)], "44-34": [(0, 4, 4), (96, 3, 4)]}
+
+
+def _fresh_process_defaults(cls):
+    """every path stands for a run in a fresh process: mutable default arguments (shared between calls inside one
+    process) start out empty, so what a path observes is what its own calls put there"""
+    for f in vars(cls).values():
+        if callable(f):
+            ds = tuple(getattr(f, "__defaults__", None) or ()) + tuple((getattr(f, "__kwdefaults__", None) or {}).values())
+            for d in ds:
+                if isinstance(d, (dict, list, set)):
+                    d.clear()
 
 
 def mk(fl, bins, ntr, prange=(60, 62), nv=None):
+    _fresh_process_defaults(Tokeniser)
     return Tokeniser(num_tracks=ntr, pitch_range=prange, velocity_bins=bins, note_values=list(nv) if nv else None,
                      flag_running_values=fl[0], flag_fuse_track=fl[1], flag_fuse_value=fl[2], flag_fuse_velocity=fl[3])
 
@@ -125,6 +137,9 @@ def roundtrip(ctx, tok, piece, check_duration=False):
     nmark = len(marks[0])
     # every bar line that lies at or before the last onset is marked
     ctx.must("bar_lines_up_to_last_onset_marked", and_([implies(b <= last_on, i < nmark) for i, b in enumerate(lines[:nmark + 2])]))
+    # ... and so is the end of the bar that holds the last onset (the last bar is closed even when nothing in it moved the clock)
+    ctx.must("bar_of_last_onset_closed", and_([implies(and_((lines[i - 1] if i else 0) <= last_on, last_on < b), i < nmark)
+                                               for i, b in enumerate(lines[:nmark + 2])]))
     sig_out = [(m.time, m.numerator, m.denominator) for m in raw_abs(out[0]) if m.message_type == TS]
     want_sig = []
     for (tt, n, d) in PLANS[piece.plan]:
@@ -148,7 +163,7 @@ def roundtrip(ctx, tok, piece, check_duration=False):
 
 
 CL = ["tokenise_succeeds", "encode_succeeds", "detokenise_succeeds", "one_sequence_per_track", "notes_reproduced_per_track",
-      "bar_markers_on_input_grid", "bar_lines_up_to_last_onset_marked"]
+      "bar_markers_on_input_grid", "bar_lines_up_to_last_onset_marked", "bar_of_last_onset_closed"]
 
 
 def q_lattice(fl, bins, ntr, kmax, nv=None, sympitch=False, v2max=127):
@@ -231,6 +246,25 @@ def q_meta_on_second_track(fl, bins, plan):
                  desc="signature events on the second track, first-track note on the bar line of the change")
 
 
+def q_second_piece(fl, bins, plan):
+    """two unrelated pieces through one tokeniser object, each with a plain tokenise(piece) call: nothing of the first
+    piece (bar position, signature, running values) may reach the second"""
+    def fn(ctx):
+        tok = mk(fl, bins, 1)
+        vals = tok.note_values
+        first = Piece(1, plan)
+        i1 = ctx.int("i1", 0, len(vals) - 1)
+        first.add(0, 61, 12 * ctx.int("k0", 5, 8), vals[i1], 64)
+        ok, _ = call(tok.tokenise, first.sequences())
+        ctx.must("tokenise_succeeds", ok)
+        p = Piece(1)
+        same = ctx.int("same_value", 0, 1)
+        p.add(0, 60, 6 * ctx.int("k", 0, 20), ite(eq(same, 1), vals[i1], 18), ctx.int("v1", 1, 127))
+        return roundtrip(ctx, tok, p)
+    return Query(f"second_piece/{plan}/f{''.join(str(int(x)) for x in fl)}-b{bins}", fn, CL,
+                 desc="a second piece tokenised after another one by the same tokeniser")
+
+
 def q_sim(fl, bins):
     def fn(ctx):
         tok = mk(fl, bins, 2)
@@ -269,6 +303,9 @@ def queries(tier, seed):
         qs.append(q_late_signature(FLAGS[15], 2))
         qs.append(q_meta_on_second_track(FLAGS[0], 1, "44-34"))
         qs.append(q_meta_on_second_track(FLAGS[15], 2, "34-58"))
+        qs.append(q_second_piece(FLAGS[0], 1, "34"))
+        qs.append(q_second_piece(FLAGS[15], 2, "34-58"))
+        qs.append(q_second_piece(FLAGS[7], 2, "none"))       # running values, nothing fused
     else:
         for fl in FLAGS:
             for bins in (1, 2, 5, 8):
@@ -283,4 +320,5 @@ def queries(tier, seed):
         for fl in FLAGS:
             qs.append(q_sim(fl, 2))
             qs.append(q_late_signature(fl, 2))
+            qs.append(q_second_piece(fl, 2, "34"))
     return qs
